@@ -373,4 +373,29 @@ def rule_f(prog, rep):
         rep.ok('C10.f', 'v3::write_and_check', f.loc, 'data, then checksum of that data, unconditionally; nothing read back from the slot')
 
 
-RULES = [('C10.f', rule_f), ('C10.a', rule_a), ('C10.b', rule_b), ('C10.c', rule_c), ('C10.d', rule_d), ('C10.e', rule_e)]
+def rule_g(prog, rep):
+    rep.rule('C10.g', 'T3', 'a flipped selector is followed by a write attempt: in v3::synchronous / asynchronous no step that can fail '
+             '(or wait on the core) lies between the selector flip (file_paths(config, true)) and the first write_and_check - every '
+             'Err exit taken after the flip has at least attempted the write; the export and the persistence-lock test come before '
+             'the flip. Otherwise a failed / cancelled flush leaves the selector on the slot of the flush before last although '
+             'nothing was written (the known finding F-13 concerns the crash between flip and write, not this)')
+    for fname in ('synchronous', 'asynchronous'):
+        crate, f, b, paths = flush_paths(prog, fname)
+        bad = [t for (ex, t, v) in paths if (v == 'err' or ex in ('try',)) and 'select:write@Ok' in t and 'write' not in [x for x in t if '@' not in x]]
+        # fallible steps between: report which
+        if bad:
+            rep.violation('C10.g', f'v3::{fname}', f.loc, f'an error exit after the selector flip without any write attempt: {list(bad[0])}',
+                          key=f'C10.g/{fname}/flip-then-fail', expected='flip the selector only when the data to write is at hand')
+        else:
+            rep.ok('C10.g', f'v3::{fname}', f.loc, 'after the flip the next fallible step is the write itself')
+        if fname == 'asynchronous':
+            # the export is a request to the core (can fail / stay pending): it must precede the flip on every path
+            late = [t for (ex, t, v) in paths if 'select:write' in t and 'export' in t and t.index('select:write') < t.index('export')]
+            if late:
+                rep.violation('C10.g', f'v3::{fname}:export-first', f.loc, 'the selector is flipped before the export request is answered',
+                              key=f'C10.g/{fname}/export-after-flip')
+            else:
+                rep.ok('C10.g', f'v3::{fname}:export-first', f.loc, 'export (a request to the core) is answered before the selector is flipped')
+
+
+RULES = [('C10.g', rule_g), ('C10.f', rule_f), ('C10.a', rule_a), ('C10.b', rule_b), ('C10.c', rule_c), ('C10.d', rule_d), ('C10.e', rule_e)]
